@@ -383,6 +383,22 @@ class Body:
         self._loops = [(h, v[0], v[1]) for h, v in sorted(by_header.items())]
         return self._loops
 
+    def regions(self):
+        """block -> representative of its straight-line region (chains of single-successor/single-predecessor blocks)"""
+        c = self.__dict__.get('_regions')
+        if c is None:
+            c = {}
+            for b in self.rpo():
+                if b in c:
+                    continue
+                c[b] = b
+                x = b
+                while len(self.succ[x]) == 1 and len(self.pred[self.succ[x][0]]) == 1 and self.succ[x][0] not in c:
+                    x = self.succ[x][0]
+                    c[x] = b
+            self.__dict__['_regions'] = c
+        return c
+
     def reach_from(self, start_blocks, avoid=()):
         seen = set()
         work = list(start_blocks)
@@ -554,9 +570,11 @@ class Body:
         while work:
             p, frm = work.pop()
             if frm in dom.get(p, ()):       # p -> frm is a back edge
-                c = ('carried', l, frm)
-                if c not in res:
-                    res.append(c)
+                # a local with no definition inside the loop is loop-invariant: nothing is carried
+                if any(x in byblock for x in self.loop_blocks(frm)):
+                    c = ('carried', l, frm)
+                    if c not in res:
+                        res.append(c)
                 continue
             if p in seen:
                 continue
@@ -573,6 +591,12 @@ class Body:
         elif not res:
             res.append(('param', l) if 1 <= l <= self.argc else ('undef', l))
         return res
+
+    def loop_blocks(self, header):
+        for (h, blocks, backs) in self.loops():
+            if h == header:
+                return blocks
+        return ()
 
     def _defs_by_block(self, l):
         c = self.__dict__.setdefault('_dbb', {})
@@ -913,7 +937,7 @@ BINOP_CALLS = {'add': 'add', 'sub': 'sub', 'mul': 'mul', 'div': 'div', 'rem': 'r
 
 
 def norm_call(name, args, body=None, term=None):
-    if name in TRANSPARENT and args:
+    if (name in TRANSPARENT or name.endswith('::clone')) and args:
         return args[0]
     if name in UNWRAP and args:
         return ('unwrap', args[0])
@@ -958,6 +982,20 @@ def simplify(d):
         return ('unwrap', t[1][1])
     if t[0] == 'unwrap_err' and isinstance(t[1], tuple) and t[1][0] == 'branch':
         return ('unwrap_err', t[1][1])
+    if t[0] == 'unwrap' and isinstance(t[1], tuple) and t[1][0] == 'call' and t[1][1].endswith('::next') and len(t[1]) == 3:
+        src = t[1][2]
+        if src[0] == 'phi':
+            srcs = [a for a in src[1:] if a[0] != 'loop']
+            if len(srcs) == 1 and len(src) == 3:
+                src = srcs[0]
+        if src[0] == 'mut' and src[1] and src[1].endswith('::next'):
+            src = src[3]
+        if src[0] == 'agg' and src[1].endswith('Range::Range'):
+            f = dict(src[2:])
+            return ('itervar', ('range', f.get('start'), f.get('end')))
+        if src[0] == 'call' and src[1] == 'RangeInclusive::new' and len(src) == 4:
+            return ('itervar', ('rangeincl', src[2], src[3]))
+        return ('itervar', src)
     if t[0] == 'veclit' and isinstance(t[1], tuple) and t[1][0] == 'update':
         # Box<MaybeUninit<[T;N]>> written once with an array aggregate
         return ('veclit', t[1][3])
